@@ -31,6 +31,9 @@ mod time_format {
         if s.len() != 4 {
             return Err(serde::de::Error::custom("Time must be 4 digits (HHMM)"));
         }
+        if !s.bytes().all(|b| b.is_ascii_digit()) {
+            return Err(serde::de::Error::custom("Time must be 4 digits (HHMM)"));
+        }
         let hours: u32 = s[0..2].parse().map_err(serde::de::Error::custom)?;
         let minutes: u32 = s[2..4].parse().map_err(serde::de::Error::custom)?;
 
@@ -58,6 +61,9 @@ mod date_format {
     {
         let s = String::deserialize(deserializer)?;
         if s.len() != 6 {
+            return Err(serde::de::Error::custom("Date must be 6 digits (YYMMDD)"));
+        }
+        if !s.bytes().all(|b| b.is_ascii_digit()) {
             return Err(serde::de::Error::custom("Date must be 6 digits (YYMMDD)"));
         }
 
